@@ -142,7 +142,11 @@ func (e *vpC40Expiry) add(lcs []*lbClient, descr string, now time.Time, limit in
 	}
 }
 
-// check sleeps until 3.3 s after the last failure, then requires every penalty to be 0.
+// check waits until 3.3 s after the batch's last failure, then requires every penalty to be 0.
+// "3.3 s after" is measured with a control timer armed exactly like the penalty timers
+// (time.AfterFunc) but due 300 ms later than the latest of them: whatever delays timers in this
+// process (a busy machine) delays the control as well. After the control has fired the penalties get
+// another 1.2 s (at least 20 polls) before a non-zero value counts as a violation.
 func (e *vpC40Expiry) check(t *testing.T, label string) {
 	e.mu.Lock()
 	items := append([]*lbClient(nil), e.items...)
@@ -151,7 +155,9 @@ func (e *vpC40Expiry) check(t *testing.T, label string) {
 	if len(items) == 0 {
 		return
 	}
-	time.Sleep(time.Until(last.Add(vpC40ExpiryCheckAt)))
+	control := make(chan struct{})
+	time.AfterFunc(time.Until(last.Add(vpC40ExpiryCheckAt)), func() { close(control) })
+	<-control
 	woke := time.Since(last)
 	nonzero := func() (n int, sample string) {
 		for _, lc := range items {
@@ -166,13 +172,16 @@ func (e *vpC40Expiry) check(t *testing.T, label string) {
 	}
 	n, sample := nonzero()
 	late := false
-	for n != 0 && time.Since(last) < vpC40ExpiryGiveUpAt {
+	for polls := 0; n != 0 && (polls < 20 || time.Since(last) < woke+(vpC40ExpiryGiveUpAt-vpC40ExpiryCheckAt)); polls++ {
 		late = true
 		time.Sleep(50 * time.Millisecond)
 		n, sample = nonzero()
 	}
 	if late && n == 0 {
-		vpNote("%s: some penalties were still set 3.3 s after the last failure but gone before 4.5 s (busy machine)", label)
+		vpNote("%s: some penalties were still set when the 3.3 s control timer fired but gone within the 1.2 s grace (busy machine)", label)
+	}
+	if woke > vpC40ExpiryGiveUpAt {
+		vpNote("%s: the 3.3 s control timer itself fired late (busy machine); penalties were judged relative to it", label)
 	}
 	penalised := 0
 	for _, lc := range items {
@@ -181,10 +190,10 @@ func (e *vpC40Expiry) check(t *testing.T, label string) {
 		}
 	}
 	vpCase(label+"/expiry-batch", penalised > 0, fmt.Sprintf("%d/%d", len(items), penalised), func() string {
-		return fmt.Sprintf("%d lbClients watched, %d of them had been penalised; all zero %v after the last failure", len(items), penalised, time.Since(last).Round(10*time.Millisecond))
+		return fmt.Sprintf("%d lbClients watched (%s); all penalties zero %v after the last failure", len(items), e.descr[items[0]], time.Since(last).Round(10*time.Millisecond))
 	})
 	if n != 0 {
-		t.Fatalf("%s: %d of %d clients still carry a penalty %v after the last penalised failure returned (limit 3 s; the harness woke up %v after it): e.g. %s",
+		t.Fatalf("%s: %d of %d clients still carry a penalty %v after the last penalised failure returned (limit 3 s; a control timer due at 3.3 s fired at %v): e.g. %s",
 			label, n, len(items), time.Since(last).Round(time.Millisecond), woke.Round(time.Millisecond), sample)
 	}
 }
@@ -339,6 +348,7 @@ func (m *vpC40Model) call(t *rapid.T, api int, outcome int32) {
 		cm.fails++
 		if cm.penalty < vpC40Cap {
 			cm.penalty++
+			vpExtra("seq_penalty_timers_armed", 1)
 		} else {
 			m.capped = true
 		}
@@ -383,7 +393,6 @@ func (m *vpC40Model) checkPenalties(t *rapid.T) {
 	}
 }
 
-var vpC40SeqExpiry vpC40Expiry
 
 func TestVP_C40_Seq(t *testing.T) {
 	vpC40ProbePreInit()
@@ -403,7 +412,9 @@ func TestVP_C40_Seq(t *testing.T) {
 		defer ReleaseRequest(m.req)
 		defer ReleaseResponse(m.resp)
 		m.start = time.Now()
-		genOutcome := rapid.SampledFrom([]int32{0, 0, 0, 0, 1, 1, 2, 3})
+		genOutcome := rapid.SampledFrom([]int32{0, 0, 0, 0, 0, 0, 1, 2, 3})
+		burstCase := rapid.IntRange(0, 59).Draw(t, "burstCase") == 0
+		burstsLeft := 1
 		preInitAllowed := !vpKnownOpen(vpC40KeyPreInit)
 		if !preInitAllowed || rapid.IntRange(0, 3).Draw(t, "firstIsCall") != 0 {
 			// membership changes before the first request are a known finding: start with a request
@@ -436,13 +447,24 @@ func TestVP_C40_Seq(t *testing.T) {
 					m.call(t, api, o)
 				}
 			},
-			"failBurst": func(t *rapid.T) { // long sequential failing run: reaches the 300 cap
-				if m.tooOld() || rapid.IntRange(0, 5).Draw(t, "gate") != 0 {
+			"failBurst": func(t *rapid.T) {
+				// a sequential failing run against ONE member (the others are made busier first), sized
+				// around the 300 cap. Only a few cases get one: every penalised failure arms a 3 s runtime
+				// timer, and hundreds of thousands of them expiring together stall the test process.
+				if m.tooOld() || !burstCase || burstsLeft == 0 || len(m.members) == 0 {
 					t.Skip("failBurst not selected")
 				}
-				k := rapid.IntRange(100, 700).Draw(t, "k")
+				burstsLeft--
+				target := m.members[rapid.IntRange(0, len(m.members)-1).Draw(t, "target")]
+				for _, mm := range m.members {
+					if mm != target {
+						mm.f.pending.Store(int64(rapid.SampledFrom([]int{299, 300, 301, 1000}).Draw(t, "otherPending")))
+					}
+				}
+				target.f.pending.Store(0)
+				k := rapid.IntRange(280, 330).Draw(t, "k")
 				o := rapid.SampledFrom([]int32{1, 3}).Draw(t, "outcome")
-				m.log = append(m.log, fmt.Sprintf("failBurst:%d", k))
+				m.log = append(m.log, fmt.Sprintf("failBurst:%d@%d", k, target.f.id))
 				for i := 0; i < k && !m.tooOld(); i++ {
 					m.call(t, 2, o)
 				}
@@ -512,23 +534,6 @@ func TestVP_C40_Seq(t *testing.T) {
 				m.checkPenalties(t)
 			},
 		})
-		// remember the clients for the shared expiry check at the end of the test
-		var lcs []*lbClient
-		penalised := 0
-		for lc := range m.seenLB {
-			lcs = append(lcs, lc)
-			if atomic.LoadUint32(&lc.penalty) > 0 {
-				penalised++
-			}
-		}
-		descr := "never penalised"
-		if penalised > 0 {
-			descr = fmt.Sprintf("penalised; history %s", strings.Join(m.log, ","))
-			if len(descr) > 300 {
-				descr = descr[:300]
-			}
-		}
-		vpC40SeqExpiry.add(lcs, descr, time.Now(), 2000)
 		class := "seq/"
 		switch {
 		case m.stale:
@@ -556,9 +561,6 @@ func TestVP_C40_Seq(t *testing.T) {
 			return fmt.Sprintf("mode=%d initial=%d ops=[%s] calls=%d tieDecided=%d unequalLoad=%d noClient=%d", m.mode, n0, strings.Join(m.log, " "), m.calls, m.ties, m.loadPicks, m.noClient)
 		})
 	})
-	if !t.Failed() {
-		vpC40SeqExpiry.check(t, "seq")
-	}
 }
 
 // ---------------------------------------------------------------------------------------------
